@@ -9,6 +9,7 @@ struct Symbol g_the_symbol;          /* the symbol of the variable the statement
 struct Value g_iter_slot;            /* its storage slot */
 unsigned g_symid;                    /* its id */
 int g_run_count, g_store_calls;
+const void *g_run_arg;               /* the statement list the last run() was given */
 long g_iter_at_run;                 /* value of the control variable when the body started */
 
 /* const Controller * Context::topControl() */
@@ -69,11 +70,11 @@ __CPROVER_ensures(__exc == 0 ==> (PTR_EQ(__CPROVER_return_value, &g_iter_slot) &
 struct std_list_StatementPtr;
 int _ZN4bloc10Executable3runERNS_7ContextERKNSt7__cxx114listIPKNS_9StatementESaIS7_EEE(struct Context *ctx, const struct std_list_StatementPtr *stmts)
 __CPROVER_requires(__exc == 0)
-__CPROVER_assigns(ctx->_breakCondition, ctx->_continueCondition, ctx->_returnCondition, ctx->_root->_returnCondition, g_run_count, g_iter_at_run,
+__CPROVER_assigns(ctx->_breakCondition, ctx->_continueCondition, ctx->_returnCondition, ctx->_root->_returnCondition, g_run_count, g_iter_at_run, g_run_arg,
                   g_iter_slot._value.i, g_iter_slot._flags, __exc, __exc_type, __exc_obj)
 __CPROVER_ensures(__exc == 0 || __exc == 1)
 __CPROVER_ensures(__exc == 1 ==> (PTR_EQ(__exc_type, G2C_EXC_RuntimeError) && IS_FRESH(__exc_obj, sizeof(struct RuntimeError))))
-__CPROVER_ensures(g_run_count == __CPROVER_old(g_run_count) + 1 && g_iter_at_run == __CPROVER_old(g_iter_slot._value.i))
+__CPROVER_ensures(g_run_count == __CPROVER_old(g_run_count) + 1 && g_iter_at_run == __CPROVER_old(g_iter_slot._value.i) && PTR_EQ(g_run_arg, stmts))
 __CPROVER_ensures((g_iter_slot._flags & ~F_NOTNULL) == (__CPROVER_old(g_iter_slot._flags) & ~F_NOTNULL))
 ;
 #endif
